@@ -255,7 +255,15 @@ def carrier(ctx):
                            'from row (%s)' % (A.key(r), b, A.key(off)))
             for st in tw:
                 t = st.targets[0]
-                ok = isinstance(t, ast.Subscript) and norm_text(t.slice) == '-1' and \
+                idx_ = t.slice if isinstance(t, ast.Subscript) else None
+                if isinstance(idx_, ast.Name):
+                    # a local bound once stands for its definition (`last = len(...) - 1`)
+                    ds_ = [n_ for n_ in ast.walk(m.node) if isinstance(n_, ast.Assign) and
+                           len(n_.targets) == 1 and isinstance(n_.targets[0], ast.Name) and
+                           n_.targets[0].id == idx_.id]
+                    idx_ = ds_[0].value if len(ds_) == 1 else idx_
+                ok = isinstance(t, ast.Subscript) and idx_ is not None and \
+                    _is_last(idx_, 'self.trajectory') and \
                     norm_text(t.value) == 'self.trajectory.iloc' and \
                     norm_text(st.value) == m.params[1]
                 ctx.ob('CARRIER', ok, None, 'set_pva overwrites the last trajectory row with '
